@@ -4,8 +4,8 @@
     is [collapse_hits]; the theorems are stated over that list ([C18_collapse_*]) and, with the
     covering hypothesis, over all matching documents ([C18_collapse_covering]).  Candidates that do
     not cover are known finding 1 ([C18_best_of_all_refuted]). *)
-From Coq Require Import List NArith Bool Permutation.
-From SL Require Import Base.Tie C18.Model C18.Proofs.
+From Coq Require Import List NArith Bool Permutation Lia.
+From SL Require Import Base.Tie C18.Model C18.Proofs C18.MeetsSpec.
 Import ListNotations.
 Open Scope N_scope.
 
@@ -73,6 +73,32 @@ Proof. exact best_of_all_refuted. Qed.
 (** a candidate with several values of the collapse field makes the request an error *)
 Theorem C18_multi_valued_is_error : forall cfg hs h, In h hs -> h_grp h = GMulti -> collapse cfg hs = Err.
 Proof. exact multi_valued_is_error. Qed.
+
+(** the model's response satisfies the executable specification used by the tie, for every
+    well-formed input whose candidates cover ([wf_input]: distinct ids, candidates are matches in
+    strictly increasing main-key order, covering, consistent inner_hits settings) *)
+Theorem C18_model_meets_spec : forall c tg gs, wf_input c ->
+  respond (cfg c) (N.to_nat (limit c)) (ranked c) = Ok (tg, gs) ->
+  spec (with_obs c tg gs) = true.
+Proof. exact model_meets_spec. Qed.
+
+Example C18_wf_input_nonvacuous :
+  let h i k g := {| h_id := i; h_key := k; h_grp := GOne g; h_ikey := k |} in
+  wf_input {| full := [h 5 0 1; h 6 1 0; h 7 2 1]; ranked := [h 5 0 1; h 6 1 0]; cfg := None;
+              isize_bound := None; limit := 2; o_err := false; o_total_groups := 0; o_hits := [] |}.
+Proof.
+  cbv zeta. constructor; cbn [full ranked cfg isize_bound].
+  - repeat constructor; cbn; intuition discriminate.
+  - intros x [<-|[<-|[]]]; cbn; tauto.
+  - cbn. repeat split; repeat constructor; cbn; reflexivity.
+  - intros g (x & Hx & Hg). destruct Hx as [<-|[<-|[]]]; cbn in Hg; inversion Hg; subst.
+    + eexists. split; [left; reflexivity|]. split; [reflexivity|].
+      intros y [<-|[<-|[<-|[]]]] Hy; cbn in *; try discriminate; lia.
+    + eexists. split; [right; left; reflexivity|]. split; [reflexivity|].
+      intros y [<-|[<-|[<-|[]]]] Hy; cbn in *; try discriminate; lia.
+  - reflexivity.
+  - intros cf H. discriminate.
+Qed.
 
 (** Non-vacuity: six candidates, three groups and a hit without value, inner hits under another
     order, from 1, size 1. *)
